@@ -94,6 +94,13 @@ type Config struct {
 }
 
 func (c *Config) excluded(op, class string) bool {
+	if c.Excluded != nil && (class == "oob" || class == "beyond-initial-size") && c.Excluded("memory", "oob") {
+		// one root cause (no bounds checks at all) may be listed once as op=memory/oob
+		if c.OnExcluded != nil {
+			c.OnExcluded("memory", "oob")
+		}
+		return true
+	}
 	if c.Excluded != nil && c.Excluded(op, class) {
 		if c.OnExcluded != nil {
 			c.OnExcluded(op, class)
